@@ -10,7 +10,7 @@ from specs.es_core import ToString, ToNumber, typeof
 from microjs.values import UNDEFINED, NULL
 
 VALUES = {"5": 5, "2.5": 2.5, "'5'": "5", "'ab'": "ab", "true": True, "null": NULL, "undefined": UNDEFINED, "-0": -0.0, "NaN": math.nan}
-RHS = {"3": 3, "'7'": "7", "true": True, "2.5": 2.5}
+RHS = {"3": 3, "'7'": "7", "true": True, "2.5": 2.5, "1": 1, "-1": -1, "0": 0}
 COMPOUND = {"+=": OPS.op_add, "-=": OPS.op_sub, "*=": OPS.op_mul, "/=": OPS.op_div, "%=": OPS.op_mod, "&=": OPS.op_band, "|=": OPS.op_bor,
             "^=": OPS.op_bxor, "<<=": OPS.op_shl, ">>=": OPS.op_shr, ">>>=": OPS.op_ushr}
 
@@ -115,4 +115,26 @@ EXTRA = [
     ("callback-var-vs-global", "var gq = 1; function f() { [1].forEach(function (x) { var gq = x + 1; }); return gq; } f()", 1),
     ("inner-var-in-loop-body-fn", "var i = 'g'; function f() { var out = []; for (var k = 0; k < 2; k++) { out.push((function () { var i = k; return i; })()); } return out.join() + i; } f()", "0,1g"),
     ("delete-local-noop", "(function () { var v = 1; var r = delete v; return v; })()", 1),
+    # surplus and missing arguments: they reach `arguments` only; parameters without an argument and plain locals start undefined
+    ("surplus-args-vs-hoisted-var", "function f(a){ if (a) { var t = 1 } return String(t) } f(0, 7, 8) + '|' + f(1, 7, 8)", "undefined|1"),
+    ("surplus-args-vs-local", "function f(a){ var u; var r = typeof u; u = a; return r + ':' + arguments.length } f(1, 2, 3)", "undefined:3"),
+    ("surplus-args-vs-captured-local", "function mk(a){ var kept; var g = function(){ return String(kept) }; return g } mk(0, 5, 6)()", "undefined"),
+    ("missing-args", "function f(a, b, c){ var x; return [a, b, c, x, arguments.length].join() } f(1)", "1,,,,1"),
+    ("surplus-args-no-params", "function f(){ var x, y; return [String(x), String(y), arguments[0], arguments[1], arguments.length].join() } f(7, 8, 9)", "undefined,undefined,7,8,3"),
+    ("surplus-args-arrow", "var f = (a) => { var z; return a + ':' + String(z) }; f(1, 2, 3)", "1:undefined"),
+    ("surplus-args-constructor", "function F(a){ var hidden; this.v = a + ':' + String(hidden) } new F(1, 2, 3).v", "1:undefined"),
+    ("surplus-args-call-apply-bind", "function f(a){ var w; return a + ':' + String(w) } [f.call(null, 1, 2, 3), f.apply(null, [4, 5, 6]), f.bind(null, 7, 8)(9)].join()", "1:undefined,4:undefined,7:undefined"),
+    ("surplus-args-callback", "[5].map(function (x) { var loc; return x + ':' + String(loc) })[0]", "5:undefined"),
+    ("surplus-args-named-fn-expr", "var g = function self(n){ var p, q; return n ? self(n - 1, 'x', 'y') : String(p) + String(q) }; g(2, 'a', 'b')", "undefinedundefined"),
+    ("bare-var-keeps-value", "var x = 1; var x; (function (a) { var a; var k = 5; var k; return x + '|' + a + '|' + k })(7)", "1|7|5"),
+    ("bare-var-in-loop", "(function () { for (var i = 0; i < 3; i++) { var acc; acc = (acc || 0) + 1 } return acc })()", 3),
+    ("closure-in-if-header", "(function () { var x = 1, r; if ((r = function () { return x })) { x = 2 } return r() })()", 2),
+    ("closure-in-while-header", "(function () { var x = 1, r; while ((r = function () { return x }) && x < 2) { x = 2 } return r() })()", 2),
+    ("closure-in-for-header", "(function () { var x = 1, r; for (r = function () { return x }; x < 2; ) { x = 2 } return r() })()", 2),
+    ("closure-in-switch-header", "(function () { var x = 1, r; switch (r = function () { return x }) { default: x = 2 } return r() })()", 2),
+    ("closure-in-case-test", "(function () { var x = 1, r; switch (1) { case (r = function () { return x }, 1): x = 2 } return r() })()", 2),
+    ("closure-in-forin-header", "(function () { var x = 1, r; for (var k in (r = function () { return x }, {a: 1})) { x = 2 } return r() })()", 2),
+    ("closure-in-dowhile-test", "(function () { var x = 1, r; do { x = 2 } while ((r = function () { return x }) && false); return r() })()", 2),
+    ("closure-in-conditional", "(function () { var x = 1; var r = true ? function () { return x } : null; x = 2; return r() })()", 2),
+    ("closure-in-argument", "(function () { var x = 1; var r = [function () { return x }][0]; x = 2; return r() })()", 2),
 ]
